@@ -9,8 +9,11 @@ package main
 import (
 	"bytes"
 	"context"
+	"encoding/base64"
 	"encoding/hex"
 	"fmt"
+	"net/http"
+	"net/http/httptest"
 	"sort"
 	"sync"
 	"sync/atomic"
@@ -19,6 +22,7 @@ import (
 	"github.com/alephium/wormhole-fork/node/cmd/guardiand"
 	"github.com/alephium/wormhole-fork/node/pkg/common"
 	"github.com/alephium/wormhole-fork/node/pkg/db"
+	gossipv1 "github.com/alephium/wormhole-fork/node/pkg/proto/gossip/v1"
 	nodev1 "github.com/alephium/wormhole-fork/node/pkg/proto/node/v1"
 	publicrpcv1 "github.com/alephium/wormhole-fork/node/pkg/proto/publicrpc/v1"
 	"github.com/alephium/wormhole-fork/node/pkg/publicrpc"
@@ -292,6 +296,94 @@ func equalStr(a, b []string) bool {
 	return true
 }
 
+// backfill: FindMissingMessages with RPC backfill against a stub of other guardians' REST gateway (an in-process
+// HTTP server that answers /v1/signed_vaa/<emitter chain>/<address>/<target chain>/<sequence> from a map and
+// records every request): the backfill nodes are asked for exactly the identifiers missing in the scanned stream -
+// never for an identifier of another stream - every VAA they return is handed to the processor queue, and a gap
+// stays in the report unless the node served that very identifier.
+func hexAddr(a int) string { return hex.EncodeToString(addrs[a][:]) }
+
+func backfill() {
+	type key struct {
+		c, t uint16
+		a    int
+		s    uint64
+	}
+	for _, sc := range []struct {
+		name         string
+		ec, tc       uint16
+		stored, node []key
+	}{
+		{"gap, node holds the reverse stream", 2, 4, []key{{2, 4, 0, 0}, {2, 4, 0, 1}, {2, 4, 0, 3}}, []key{{4, 2, 0, 2}}},
+		{"gap, node holds the missing one and the reverse stream", 2, 4, []key{{2, 4, 0, 0}, {2, 4, 0, 1}, {2, 4, 0, 3}}, []key{{4, 2, 0, 2}, {2, 4, 0, 2}}},
+		{"gap, node holds another emitter address", 2, 255, []key{{2, 255, 0, 0}, {2, 255, 0, 2}}, []key{{2, 255, 2, 1}}},
+		{"two gaps, node holds one", 10, 2, []key{{10, 2, 0, 0}, {10, 2, 0, 3}}, []key{{10, 2, 0, 1}}},
+	} {
+		w := newWorld()
+		var touched []string
+		for _, k := range sc.stored {
+			v := mkVAA(id{k.c, k.a, k.t, k.s}, 0)
+			w.d.StoreSignedVAA(v)
+			vid := id{k.c, k.a, k.t, k.s}.vaaID()
+			touched = append(touched, string(vid.Bytes()))
+		}
+		nodeHas := map[string][]byte{}
+		for _, k := range sc.node {
+			b, _ := mkVAA(id{k.c, k.a, k.t, k.s}, 0).Marshal()
+			nodeHas[fmt.Sprintf("/v1/signed_vaa/%d/%s/%d/%d", k.c, hexAddr(k.a), k.t, k.s)] = b
+		}
+		var asked []string
+		var mu sync.Mutex
+		srv := httptest.NewServer(http.HandlerFunc(func(rw http.ResponseWriter, rq *http.Request) {
+			mu.Lock()
+			asked = append(asked, rq.URL.Path)
+			mu.Unlock()
+			if b, ok := nodeHas[rq.URL.Path]; ok {
+				rw.Header().Set("Content-Type", "application/json")
+				fmt.Fprintf(rw, `{"vaaBytes":"%s"}`, base64.StdEncoding.EncodeToString(b))
+				return
+			}
+			http.Error(rw, "not found", 404)
+		}))
+		signedIn := make(chan *gossipv1.SignedVAAWithQuorum, 16)
+		adm := guardiand.VerifNewPrivilegedService(w.d, nil, nil, signedIn, govChain, addrs[1])
+		resp, err := adm.FindMissingMessages(context.Background(), &nodev1.FindMissingMessagesRequest{EmitterChain: uint32(sc.ec), EmitterAddress: hexAddr(0), TargetChain: uint32(sc.tc), RpcBackfill: true, BackfillNodes: []string{srv.URL}})
+		srv.Close()
+		atomic.AddInt64(&queries, 1)
+		rec := map[string]interface{}{"scenario": sc.name, "stored": sc.stored, "backfill_node_holds": sc.node, "asked": asked}
+		if err != nil {
+			viol("FindMissingMessages with backfill returns an error", err.Error(), nil, rec)
+			w.d.VerifDeleteKeys(touched)
+			continue
+		}
+		present := map[uint64]bool{}
+		var max uint64
+		for _, k := range sc.stored {
+			present[k.s] = true
+			if k.s > max {
+				max = k.s
+			}
+		}
+		var wantAsk, wantMissing []string
+		for q := uint64(0); q <= max; q++ {
+			if !present[q] {
+				path := fmt.Sprintf("/v1/signed_vaa/%d/%s/%d/%d", sc.ec, hexAddr(0), sc.tc, q)
+				wantAsk = append(wantAsk, path)
+				if _, ok := nodeHas[path]; !ok {
+					wantMissing = append(wantMissing, fmt.Sprintf("%d/%s/%d/%d", sc.ec, hexAddr(0), sc.tc, q))
+				}
+			}
+		}
+		if !equalStr(asked, wantAsk) {
+			viol("backfill asks other nodes for identifiers that are not the missing ones of the scanned stream", fmt.Sprintf("%s: asked %v, want %v", sc.name, asked, wantAsk), nil, rec)
+		}
+		if !equalStr(resp.MissingMessages, wantMissing) {
+			viol("backfill drops a gap from the report although no node served that identifier (or keeps one that was served)", fmt.Sprintf("%s: reported %v, want %v", sc.name, resp.MissingMessages, wantMissing), nil, rec)
+		}
+		w.d.VerifDeleteKeys(touched)
+	}
+}
+
 func main() {
 	r = ev.Start("C12", "model_checking")
 	// 258 = 2 + 256, 511 = 255 + 256, 10001 = 17 + 39*256: chain ids that coincide once narrowed to 8 bits
@@ -427,6 +519,7 @@ func main() {
 		d.Close()
 		removeAll(dir)
 	}
+	backfill()
 	r.Set("on_disk_contents", disk)
 	r.Set("states", int(contents))
 	r.Set("transitions", int(queries))
